@@ -103,3 +103,33 @@ extern "C" void h_rebinding_full(void) {
    }
    vp_done();
 }
+
+// many bindings pending before the first lookup: C16_N parameters of one mapping are bound (ascending, descending or interleaved from both
+// ends), all are bound again to another value in another order, one symbolically chosen parameter is bound a third time; only then is the
+// substitution read.  Whatever the implementation defers until the first lookup must keep the latest binding of each parameter for
+// every number of pending bindings (thresholds inside sorting / merging / spilling steps lie between 8 and 32 entries).
+#ifndef C16_N
+#define C16_N 24
+#endif
+extern "C" void h_many_pending(void) {
+   World* w = new World;
+   impl::Mapping* big = w->lx.make_mapping(*w->unit.global_region(), Mapping_level{ 1 });
+   const ipr::Parameter* all[C16_N]; const ipr::Expr* last[C16_N];
+   char nm[3] = { 'p', 'a', 0 };
+   for (int i = 0; i < C16_N; ++i) { nm[1] = static_cast<char>('a' + i); all[i] = big->param(w->lx.get_identifier(reinterpret_cast<const char8_t*>(nm)), w->lx.int_type()); }
+   impl::General_substitution* g = w->lx.make_general_substitution();
+   unsigned order = vp_pick(3);
+   auto slot = [&](int i) { return order == 0 ? i : order == 1 ? C16_N - 1 - i : (i % 2 ? C16_N - 1 - i / 2 : i / 2); };
+   for (int i = 0; i < C16_N; ++i) { int k = slot(i); last[k] = w->V[k % 3]; g->subst(*all[k], *last[k]); }
+   for (int i = C16_N - 1; i >= 0; --i) { int k = slot(i); last[k] = w->V[(k + 1) % 3]; g->subst(*all[k], *last[k]); }
+   unsigned p = vp_pick(C16_N), v = vp_pick(2);
+   last[p] = v == 0 ? w->V[(p + 2) % 3] : static_cast<const ipr::Expr*>(all[p]);
+   g->subst(*all[p], *last[p]);
+   for (int q = 0; q < C16_N; ++q) vp_assert(&(*g)[*all[q]] == last[q], 40);
+   // a further rebinding after the first read, and a parameter outside the domain
+   unsigned p2 = vp_pick(C16_N);
+   last[p2] = w->V[p2 % 3]; g->subst(*all[p2], *last[p2]);
+   for (int q = 0; q < C16_N; ++q) vp_assert(&(*g)[*all[q]] == last[q], 41);
+   vp_assert(&(*g)[*w->P[0]] == w->P[0], 42);
+   vp_done();
+}
